@@ -247,7 +247,7 @@ func modelConfigs(thorough bool) []mcfg {
 		{"rq2b", append(reqKinds("R3"), "Rm3", "Rm3:1b", "Rm3:2b", "Rm3:2n", "Rm3:3b", "Rm", "Rm:1b"), 2, 1, false},
 		{"rq3", []string{"R3:1b", "Rm3", "Rm3:1b", "Rm3:2n", "Rm3:3b"}, 3, 1, false},
 		{"rp1", reqKinds("P", "Pm"), 1, 1, false},
-		{"rp2", reqKinds("P", "Pm"), 2, 1, false},
+		{"rp2", append(reqKinds("P"), "Pm", "Pm:1b", "Pm:2n", "Pm:2a", "Pm:3a", "Pm:4b"), 2, 1, false},
 		{"rp3", []string{"P", "P:2a", "Pm", "Pm:1b", "Pm:3a", "Pm:4n"}, 3, 1, false},
 		{"ck1", compositeKinds, 1, 1, false},
 		{"ck2", compositeKinds, 2, 1, false},
